@@ -3,7 +3,7 @@
    T is the type of hashes; the statements hold for every T with a correct equality test (no property
    of the hash function is needed for C07), and are instantiated with the free symbolic hashes `sym`. *)
 From Coq Require Import Relations.
-From Ruler Require Import Bytes AList RuleSyntax World Work Build Ops Inv InvFacts C07Extra.
+From Ruler Require Import Bytes AList RuleSyntax World Work Build Ops Inv InvFacts C07Extra C01Facts CoarseInv CoarseBuild C18CoarseFacts.
 
 Local Notation steps teqb hc := (clos_refl_trans _ (step teqb hc)).
 
@@ -67,5 +67,17 @@ Theorem C07_restore_gives_requested_content : forall (w w' : world sym) t p f,
   t = SContent (f_content f).
 Proof. exact c07_restore_content_sym. Qed.
 
+(* ROUND 2 — ANY CLOCK. The theorems above assume that distinct writes carry distinct times (the fine clock, part of
+   disk_inv). Under the coarse clock (all writes of one invocation share a time) the cache is content-addressed after
+   every history as well: it is the first component of the per-path invariant `coarse_inv` (Proofs/CoarseInv.v), which
+   holds after every history of the C01 alphabet whose builds run commands confined to their targets. (For kills
+   under the coarse clock see C11 and suite crash_coarse: defect F6, repaired.) *)
+Theorem C07_every_history_any_clock : forall mode t0 (ops : list (op sym)),
+  0 < t0 -> confined_history sym sym_eqb SContent SList SRule (init_world mode t0) ops ->
+  cache_addressed sym_eqb SContent
+    (fold_left (fun w o => fst (apply_op sym_eqb SContent SList SRule w o)) ops (init_world mode t0)).
+Proof. intros mode t0 ops H0 Hc. exact (proj1 (coarse_inv_every_history_sym mode t0 ops H0 Hc)). Qed.
+
 Check C07_cache_content_addressed.
 Check C07_every_history.
+Check C07_every_history_any_clock.
